@@ -59,19 +59,31 @@ def lastDef (items : HDict) (n : String) : Option PyVal :=
 
 /- ---------- header stack and `_additional_headers` blocks ---------- -/
 
+/-- The class of the exception through which a block is left.  Python's `except Exception` catches
+    only the first kind; `finally` (what `_additional_headers` uses) runs for every one of them, so
+    the model below treats all kinds alike — the kind is carried along only to say *which* exception
+    comes out of the block. -/
+inductive ExcKind where
+  | exception        -- an `Exception` subclass
+  | baseException    -- a class deriving directly from `BaseException` (like `KeyboardInterrupt`)
+  | generatorExit    -- `GeneratorExit`
+  | systemExit       -- `SystemExit`
+  | assertion        -- the `AssertionError` of `pop_headers`
+  deriving DecidableEq, Repr
+
 /-- What a `with proxy._additional_headers(h):` block contains: requests and nested blocks, and
-    possibly a `raise` that leaves the block through an exception. -/
+    possibly a `raise` that leaves the block through an exception of some kind. -/
 inductive Block where
   | call                                    -- a request: headers are emitted from the current stack
-  | raise                                   -- an exception is raised at this point
+  | raise (kind : ExcKind)                  -- an exception of this kind is raised at this point
   | nest (headers : HDict) (body : List Block)
 
 /-- Result of running a piece of client code: the stack afterwards, the stacks seen by each request,
-    whether an exception is propagating, and whether `pop_headers`' assertion failed. -/
+    the exception that is propagating (if any), and whether `pop_headers`' assertion failed. -/
 structure Run where
   stack : List HDict
   seen : List (List HDict) := []
-  raised : Bool := false
+  raised : Option ExcKind := none
   assertFailed : Bool := false
 
 /-- `pop_headers(headers)`: `assert self.additional_headers[-1] == headers; pop()`.
@@ -86,19 +98,19 @@ mutual
   /-- Run one block item on the stack. -/
   def runBlock (stack : List HDict) : Block → Run
     | .call => { stack := stack, seen := [stack] }
-    | .raise => { stack := stack, raised := true }
+    | .raise k => { stack := stack, raised := some k }
     | .nest h body =>
-      -- push_headers(h); try: <body> finally: pop_headers(h)
+      -- push_headers(h); try: <body> finally: pop_headers(h)      (`finally`: whatever `r.raised` is)
       let r := runBody (stack ++ [h]) body
       match popHeaders r.stack h with
       | some s => { r with stack := s }
-      | none => { r with assertFailed := true, raised := true }
+      | none => { r with assertFailed := true, raised := some .assertion }
   /-- Run a statement list: stops at the first propagating exception. -/
   def runBody (stack : List HDict) : List Block → Run
     | [] => { stack := stack }
     | b :: rest =>
       let r := runBlock stack b
-      if r.raised then r
+      if r.raised.isSome then r
       else
         let r' := runBody r.stack rest
         { r' with seen := r.seen ++ r'.seen }
